@@ -51,25 +51,25 @@ def okQ (m : QMat) (rows : List PyId) : Json :=
 
 def handleNet (h : Net) (f : String) (j : Json) : Json :=
   match f with
-  | "incidence" =>
+  | "incidence_matrix" =>
     match orderOpt? j with
     | none => badOp | some none => unmodelled
     | some (some o) => let I := incidence h o; okI I.mat I.rows (some I.cols)
-  | "adjacency" =>
+  | "adjacency_matrix" =>
     match orderOpt? j, getInt? j "s", getBool? j "weighted" with
     | some none, some _, some _ => unmodelled
     | some (some o), some s, some w => let A := adjacency h o s w; okI A.1 A.2
     | _, _, _ => badOp
-  | "degree" =>
+  | "degree_matrix" =>
     match orderOpt? j with
     | none => badOp | some none => unmodelled
     | some (some o) => let K := degreeVec h o
       Json.mkObj [("out", Json.str "ok"), ("vec", Json.arr (K.1.map intJson).toArray), ("rows", idsToJson K.2)]
-  | "profile" =>
+  | "intersection_profile" =>
     match orderOpt? j with
     | none => badOp | some none => unmodelled
     | some (some o) => let P := profile h o; okI P.1 P.2
-  | "clique" => let W := cliqueMotif h; okI W.1 W.2
+  | "clique_motif_matrix" => let W := cliqueMotif h; okI W.1 W.2
   | "laplacian" =>
     match getInt? j "order", getBool? j "rescale" with
     | some d, some r =>
@@ -78,7 +78,7 @@ def handleNet (h : Net) (f : String) (j : Json) : Json :=
       | none => out "undefined"
       | some L => okQ L.1 L.2
     | _, _ => badOp
-  | "multiorder" =>
+  | "multiorder_laplacian" =>
     match getArr? j "orders", getArr? j "weights", getBool? j "rescale" with
     | some os, some ws, some r =>
       match os.mapM (fun o => match o with
@@ -92,7 +92,7 @@ def handleNet (h : Net) (f : String) (j : Json) : Json :=
         | .errLib => out "err:lib"
       | _, _ => badOp
     | _, _, _ => badOp
-  | "normalized" =>
+  | "normalized_hypergraph_laplacian" =>
     match getBool? j "weighted", getArr? j "weights" with
     | some wt, some ws =>
       match ws.mapM (fun w => match w with | .null => some none | w => (ratOfJson? w).map some) with
@@ -106,7 +106,7 @@ def handleNet (h : Net) (f : String) (j : Json) : Json :=
         | .errLib => out "err:lib"
       | none => badOp
     | _, _ => badOp
-  | "tensor" =>
+  | "adjacency_tensor" =>
     match getInt? j "order", getBool? j "normalized" with
     | some d, some nm =>
       if d < 0 then unmodelled else
